@@ -504,6 +504,11 @@ func (h *History) Step(o Op) {
 		if c != nil {
 			c.stalled = o.Kind != "off"
 			c.theirs.SetStall(c.stalled)
+			if !c.stalled { // everything that piled up is written now: part of this step
+				if !h.quiesce() {
+					fail("stuck: no quiescence")
+				}
+			}
 		}
 	case "sleep":
 		time.Sleep(time.Duration(o.Sleep) * time.Millisecond)
